@@ -654,7 +654,7 @@ fn main() {
             let (obs, leader) = p.observe().await;
             trace.emit(json!({"ev":"Start","obs":obs,"leader":leader,"nsigners":NSIGNERS,"k":p.leader.params.k,"schedule":si,"warm":*warm}));
             let mut prev_ids: Vec<u64> = vec![];
-            for a in schedule {
+'schedule: for a in schedule {
                 // "all": every party registered for the signing epoch signs (one stimulus per party)
                 let steps: Vec<Value> = if a["a"] == "Sign" && a["all"].as_bool().unwrap_or(false) {
                     (0..NSIGNERS).map(|w| { let mut b = a.clone(); b["who"] = json!(w); b["label"] = json!(w); b.as_object_mut().unwrap().remove("all"); b }).collect()
@@ -662,7 +662,20 @@ fn main() {
                     vec![a.clone()]
                 };
                 for a in &steps {
-                    let res = p.act(a).await;
+                    // a panic of the code under test outside the places where the harness restarts the node itself is
+                    // data too: the process died; the rest of this schedule is abandoned (counted, not judged)
+                    let hook = std::panic::take_hook();
+                    std::panic::set_hook(Box::new(|_| {}));
+                    let caught = CatchUnwind(Box::pin(p.act(a))).await;
+                    std::panic::set_hook(hook);
+                    let res = match caught {
+                        Ok(v) => v,
+                        Err(msg) => {
+                            *stats.entry("schedules_abandoned_after_a_panic".to_string()).or_default() += 1;
+                            eprintln!("PANIC (data) in schedule {si} at {a}: {}", msg.chars().take(200).collect::<String>());
+                            break 'schedule;
+                        }
+                    };
                     Pair::settle().await;
                     let (obs, leader) = p.observe().await;
                     actions += 1;
